@@ -93,6 +93,11 @@ def record_one(task):
     S = g.schema()
     if rng.random() < 0.85:
         S = mutate_shapes(rng, S, rng.randrange(1, 4))
+    if isinstance(S, dict) and rng.random() < 0.3:
+        # the candidate declares a dialect of its own -- this class's metaschema still decides ($schema is just a string)
+        from harness.calibrate import META_IDS
+        S = dict(S)
+        S["$schema"] = rng.choice([META_IDS[x] for x in DRAFTS if x != d] + [META_IDS[d], "http://x.invalid/other"]) + rng.choice(["", "#"])
     out, info = classify_check_schema(d, S)
     try:
         return ({"id": i, "kind": "accept", "d": d, "S": enc(S), "out": out}, S, info)
@@ -108,7 +113,7 @@ def main(args):
                "non-object candidates; thorough: pairs inside families and the full shape pool); TLC evaluates the bundled "
                "metaschema (as found in the working tree) on each candidate with the draft's own semantics and exports "
                "the acceptance bit, replayed into check_schema. Plus random deep schemas with 1-3 shape mutations at "
-               "random depths, judged by TLC (Trace_Outcome); nested universe candidates are asked again, in a fresh process, "
+               "random depths (30 % declaring another draft in their own $schema), judged by TLC (Trace_Outcome); nested universe candidates are asked again, in a fresh process, "
                "after a laxer dialect has been derived from each class and registered under the same metaschema id. Non-trivial: candidate is an object with a keyword of the "
                "draft; distinct by (draft, candidate).")
     wd = tlc.workdir("c11lib")
